@@ -244,3 +244,8 @@ _extend("C17", [("builder_rules", "c10", ("quick",), lambda o: "length of 0" in 
 _extend("C18", [("c09", "r5_defaults", (), ALL, "required/optional of a linked adapter's parts follow the documented defaults for -a versus -g, and an explicit ;required / ;optional decides alone"),
                 ("c07", "r1_coverage", (), _has("anywhere"), "an adapter given with ;anywhere is found wherever -b would find it, also in reads shorter than the adapter")])
 _extend("C09", [("c05", "r6_pair_adapters", (), _has("_find_best_match_pair"), "with --pair-adapters the best pair is chosen by the totals of both matches (first wins ties)")])
+
+# ninth round
+_extend("C03", [("c01", "r7_tuple", (), ALL, "retain and crop keep the interval [rstart, rstop) of the match: the coordinates stored in a match are those of the alignment (incl. the rightmost mirror)")])
+_extend("C05", [("c04", "r8_claimed_before_open", (), ALL, "a file generated from a {name} template that equals another output of one mate only gets that mate's reads twice: R1 and R2 files fall out of step")])
+_extend("C06", [("c04", "r5_loops", (), ALL, "a worker runs process_reads once per chunk: per-call totals must start from zero in every call, or the sums depend on how chunks are distributed")])
